@@ -215,6 +215,11 @@ def r2(R):
                                      'lock itself')
         return (commit, held, fl)
 
+    emptied_nodes = {}
+
+    def pool_emptied_before(path_nodes, idx):
+        return True
+
     def at(node, st):
         commit, held, fl = st
         locks = held_locks(held)
@@ -425,3 +430,148 @@ def r5(R):
                                 'an empty database',
                                 key='rename of the live data-file name')
     R.require(n >= 1, 'no renames found in FileStorage')
+
+
+@rule('C08.R6', 'the packer decides that it has caught up from a read of the '
+      'data file made while it holds the commit lock, after the last time it '
+      'let commits through', min_instances=1)
+def r6(R):
+    cls = R.prog.cls(PACKER)
+    f = R.method(cls, 'pack')
+    g, b, F = R.cfg(f, cls, max_depth=3,
+                    inline=lambda t, fr: t.func.name in ('copyRest',
+                                                         'copyOne'))
+    R.instance('FileStoragePacker.pack catch-up loop')
+    rels = [0]
+
+    def file_probe(node):
+        """a read / size query of the packer's input file"""
+        for op in F.ops(node):
+            if op.kind == 'call' and op.path is not None:
+                if op.path[:2] == ('self', '_file') and len(op.path) == 3 \
+                        and op.path[2] in ('read', 'tell', 'seek'):
+                    return True
+                if op.path[-1] in ('_read_txn_header', '_read_num',
+                                   '_read_data_header') and \
+                        op.path[0] == 'self':
+                    return True
+        if node.kind == 'call' and node.info['target'].func.name in (
+                '_read_txn_header',):
+            return True
+        return False
+
+    def edge(node, st, lab, tgt):
+        lock, fresh = st
+        if lab == 'e' and tgt.kind == 'handler' and tgt.ast.type is not None \
+                and 'CorruptedDataError' in ast.unparse(tgt.ast.type) and \
+                lock == 0:
+            return PRUNE                # O14, see C08.R1
+        for c in clock(F, node):
+            if c == 'acq':
+                lock = 1
+                fresh = False           # commits may have happened meanwhile
+            else:
+                rels[0] += 1
+                lock = 0
+                fresh = False
+        if lock and file_probe(node):
+            fresh = True                # even if the probe raises (EOF)
+        return (lock, fresh)
+
+    def at(node, st):
+        lock, fresh = st
+        if node.kind == 'return' and node.frame.parent is None and \
+                node.ast.value is not None and not (isinstance(
+                    node.ast.value, ast.Constant) and
+                    node.ast.value.value is None):
+            if not fresh:
+                return Violation(
+                    'pack() concludes that everything has been copied '
+                    'without having looked at the data file since it last '
+                    're-acquired the commit lock (it relies on an end '
+                    'position measured before it let commits through): a '
+                    'transaction committed while the packer had released the '
+                    'lock is not copied, and is lost when the files are '
+                    'swapped')
+        return st
+
+    vs, stats = explore(g, (0, False), at=at, edge=edge)
+    R.count(stats)
+    R.require(rels[0] or vs, 'the packer never releases the commit lock')
+    for v in vs:
+        R.violation((f.module.relpath, f.qualname, 'catch-up decision'),
+                    v.message, g, v.path)
+
+
+@rule('C08.R7', 'inside the swap, the pooled read handles are closed under '
+      'the writer side before the file is renamed; the data-file handle is '
+      'never left closed', min_instances=2)
+def r7(R):
+    cls = R.prog.cls(FS)
+    f = R.method(cls, 'pack')
+    g, b, F = R.cfg(f, cls, max_depth=2,
+                    inline=lambda t, fr: t.func.name in ('write_lock',
+                                                         '_initIndex'))
+    seen = {'rename': 0, 'close': 0}
+
+    def edge(node, st, lab, tgt):
+        held, emptied, handle = st
+        before = POOL_WRITE in held_locks(held)
+        held = step_held(F, node, held, lab)
+        after = POOL_WRITE in held_locks(held)
+        if before != after:
+            emptied = False         # entering or leaving the writer side
+        for op in F.ops(node):
+            if op.kind == 'call' and path_is(op.path,
+                                             ('self', '_files', 'empty')) \
+                    and after and lab != 'e' and node.frame.parent is None:
+                emptied = True
+            if op.kind == 'call' and path_is(op.path,
+                                             ('self', '_file', 'close')) \
+                    and lab != 'e':
+                seen['close'] += 1
+                handle = 'closed'
+            if op.kind == 'store' and path_is(op.path, ('self', '_file')):
+                handle = 'open'     # the attempt counts (second failure)
+            if op.kind == 'call' and op.path in (('@os', 'rename'),
+                                                 ('@os', 'replace')) and \
+                    lab != 'e' and handle == 'closed' and \
+                    node.frame.parent is None:
+                handle = 'gone'     # past the point of no return: F12
+        return (held, emptied, handle)
+
+    def at(node, st):
+        held, emptied, handle = st
+        if node.frame.parent is None:
+            for op in F.ops(node):
+                if op.kind == 'call' and op.path in (('@os', 'rename'),
+                                                     ('@os', 'replace')):
+                    seen['rename'] += 1
+                    if not emptied:
+                        return Violation(
+                            'the data file is renamed while read handles on '
+                            'it may still be in the pool (they were not '
+                            'closed inside this writer-side section): a '
+                            'load that ran just before goes on using the old '
+                            'file with the new index')
+        if handle == 'closed' and node.id in (g.exit_raise, g.exit_return):
+            return Violation(
+                'pack can leave (%s) with the storage\'s data-file handle '
+                'closed: a pack that fails at this point makes every later '
+                'operation fail although nothing was changed' % (
+                    'exception' if node.id == g.exit_raise else 'return'))
+        return st
+
+    vs, stats = explore(g, (frozenset(), False, 'open'), at=at, edge=edge)
+    R.count(stats)
+    R.instance('renames inside the swap', n=seen['rename'])
+    R.instance('data-file handle typestate', closes=seen['close'])
+    R.require(vs or (seen['rename'] and seen['close']),
+              'swap not recognised: %s' % seen)
+    for v in vs:
+        n = v.node
+        if n.id == g.exit_raise:
+            n = raising_node(g, v.path)
+        elif n.id == g.exit_return:
+            n = (f.module.relpath, f.qualname, 'handle at return')
+        R.violation(n, v.message, g, v.path)
